@@ -108,7 +108,7 @@ func httpBody(c *runner.Ctx) {
 			handler.ServeHTTP(rec, req)
 			r.returned = true
 			r.body = rec.Body.String()
-			simrt.Logf("request %d returned: %s", r.idx, short(json.RawMessage(r.body)))
+			simrt.Logf("request %d returned: %s", r.idx, strings.SplitN(r.body, "\\n", 2)[0])
 		}()
 	}
 	simrt.Sleep(5 * time.Minute)
